@@ -74,10 +74,11 @@ LitVerdict(r) ==
 
 \* e = "Comp": a reply computed at run time by the code path r.site driven with r.in
 CompVerdict(r) ==
-  LET o    == [code |-> r.out.code, enh |-> r.out.enh, temp |-> r.out.temp]
-      \* a path that no longer fails says nothing about reply classes: drift, not a violation
-      viol == IF r.out.failed /\ ~CompCoherent(o) THEN {"CompCoherent"} ELSE {}
-      expl == {D \in SUBSET Devs : r.out.failed /\ CompRule(D, r) = o}
+  LET o    == [failed |-> r.out.failed, code |-> r.out.code, enh |-> r.out.enh, temp |-> r.out.temp]
+      viol == IF CompOK(o) THEN {} ELSE {"CompCoherent"}
+      expl == {D \in SUBSET Devs : CompRule(D, r) = o}
+      \* a path that no longer fails (or fails where it let pass) says nothing about reply
+      \* classes: drift, not a violation
   IN [t |-> r.t, drift |-> expl = {}, driftAt |-> IF expl = {} THEN r.seq ELSE 0, viol |-> viol,
       devs |-> IF viol = {} THEN {} ELSE IF expl = {} THEN {"UNEXPLAINED"} ELSE Smallest(expl)]
 
